@@ -59,25 +59,31 @@ def rule_partition_check(ctx: Ctx):
     ok_c = cset is not None and len(cdef) == 1 and (norm(cdef[0]) == "set()" or isinstance(cdef[0], ast.SetComp))
     ctx.check(ok_c, "R-C17-1", f, cdef[0] if cdef else None, "every (annotator, unit) of the continuum is collected into a set",
               bad_detail="the (annotator, unit) pairs of the continuum are not all collected into a set", key="continuum-pairs")
-    # alignment pairs
-    col = None
+    # alignment pairs (canonical form after load-time normalisation: one comprehension over the unitary alignments and their slots)
     lst = None
-    for cand in walk_no_nested(f.node):
-        if isinstance(cand, ast.Call) and isinstance(cand.func, ast.Attribute) and cand.func.attr == "append" and isinstance(cand.args[0], ast.Tuple):
-            lst = norm(cand.func.value)
-    got = _collect_pairs_from_alignment(f, lst) if lst else None
+    anode = None
     ok_a = False
-    if got:
-        O, I, a, u = got
-        skips = [s for s in I.body if isinstance(s, ast.If) and norm(s.test) == f"{u} is None" and len(s.body) == 1 and isinstance(s.body[0], ast.Continue)]
-        apps = [s for s in I.body if isinstance(s, ast.Expr) and isinstance(s.value, ast.Call) and norm(s.value.func) == f"{lst}.append"
-                and norm(s.value.args[0]) == f"({a}, {u})"]
-        guarded = [s for s in I.body if isinstance(s, ast.If) and norm(s.test) == f"{u} is not None" and any(
-            isinstance(x, ast.Call) and norm(x.func) == f"{lst}.append" and norm(x.args[0]) == f"({a}, {u})" for y in s.body for x in ast.walk(y))]
-        ok_a = (len(skips) == 1 and len(apps) == 1 and len(I.body) == 2 and I.body.index(skips[0]) < I.body.index(apps[0])) or \
-            (len(guarded) == 1 and len(I.body) == 1)
-        ldef = assigned_value(f.node, lst)
-        ok_a = ok_a and len(ldef) == 1 and norm(ldef[0]) in ("list()", "[]") and len(O.body) == 1
+    recognised = False
+    inline_comp = None
+    for c_ in walk_no_nested(f.node):
+        if isinstance(c_, ast.ListComp) and len(c_.generators) == 2:
+            g0, g1 = c_.generators
+            if isinstance(g0.target, ast.Name) and norm(g1.iter) == f"{g0.target.id}.n_tuple":
+                recognised = True
+                holder = next((s_ for s_ in walk_no_nested(f.node) if isinstance(s_, ast.Assign) and s_.value is c_ and len(s_.targets) == 1
+                               and isinstance(s_.targets[0], ast.Name)), None)
+                # a list used once right after its construction is written in place of its name by the load-time normalisation
+                lst, anode = (holder.targets[0].id, holder) if holder is not None else (norm(c_), c_)
+                inline_comp = c_ if holder is None else None
+                if isinstance(g1.target, ast.Tuple) and len(g1.target.elts) == 2:
+                    a, u = norm(g1.target.elts[0]), norm(g1.target.elts[1])
+                    ok_a = norm(g0.iter) in (f"{sn}.unitary_alignments", sn) and not g0.ifs and [norm(c) for c in g1.ifs] == [f"{u} is not None"] and norm(c_.elt) == f"({a}, {u})" and \
+                        (holder is None or len(stores_to(f.node, lst)) == 1)
+    got = (None, anode) if anode is not None else None
+    if not recognised:
+        ctx.undecided("R-C17-1", f, None, "the collection of the alignment's (annotator, unit) occurrences is not a loop nest / comprehension over "
+                      "self.unitary_alignments x n_tuple (not a verdict)", key="alignment-pairs")
+        return
     ctx.check(ok_a, "R-C17-1", f, got[1] if got else None, "every non-empty slot of every unitary alignment is collected once (with multiplicity), empty slots skipped",
               bad_detail="the alignment's (annotator, unit) occurrences are not collected slot by slot with empty slots skipped", key="alignment-pairs")
     if not (ok_c and ok_a):
@@ -127,7 +133,7 @@ def rule_partition_check(ctx: Ctx):
                   bad_detail="check() can return normally without evaluating the missing-unit or the repeated-unit test (early return / skipped branch)",
                   key="both-tests-on-every-exit")
     # order-insensitive consumers of the collected pairs
-    uses = [n for n in walk_no_nested(f.node) if isinstance(n, ast.Name) and n.id == lst and isinstance(n.ctx, ast.Load)]
+    uses = [n for n in walk_no_nested(f.node) if (isinstance(n, ast.Name) and n.id == lst and isinstance(n.ctx, ast.Load)) or (inline_comp is not None and n is inline_comp)]
     bad_uses = []
     for n in uses:
         par = enclosing(f.node, n, (ast.Call,))
